@@ -1,6 +1,6 @@
 //go:build verif
 
-package hpke
+package hpke_test
 
 // C07: HPKE produces exactly the RFC 9180 outputs for every suite, mode and input.
 // Shared machinery of the C07 units: the bridge between circl's objects and the
@@ -12,6 +12,7 @@ import (
 	"encoding/json"
 	"errors"
 	"fmt"
+	. "github.com/cloudflare/circl/hpke"
 	"os"
 	"path/filepath"
 	"sort"
@@ -27,10 +28,22 @@ var (
 	c07KEMs  = []KEM{KEM_P256_HKDF_SHA256, KEM_P384_HKDF_SHA384, KEM_P521_HKDF_SHA512, KEM_X25519_HKDF_SHA256, KEM_X448_HKDF_SHA512, KEM_X25519_KYBER768_DRAFT00, KEM_XWING}
 	c07KDFs  = []KDF{KDF_HKDF_SHA256, KDF_HKDF_SHA384, KDF_HKDF_SHA512}
 	c07AEADs = []AEAD{AEAD_AES128GCM, AEAD_AES256GCM, AEAD_ChaCha20Poly1305}
-	c07Modes = []byte{modeBase, modePSK, modeAuth, modeAuthPSK}
+	c07Modes = []byte{c07MBase, c07MPSK, c07MAuth, c07MAuthPSK}
 )
 
-var c07ModeNames = map[byte]string{modeBase: "base", modePSK: "psk", modeAuth: "auth", modeAuthPSK: "authpsk"}
+// RFC 9180 mode identifiers (table 1)
+const (
+	c07MBase    byte = 0x00
+	c07MPSK     byte = 0x01
+	c07MAuth    byte = 0x02
+	c07MAuthPSK byte = 0x03
+)
+
+func c07K(s Suite) KEM  { k, _, _ := s.Params(); return k }
+func c07D(s Suite) KDF  { _, d, _ := s.Params(); return d }
+func c07A(s Suite) AEAD { _, _, a := s.Params(); return a }
+
+var c07ModeNames = map[byte]string{c07MBase: "base", c07MPSK: "psk", c07MAuth: "auth", c07MAuthPSK: "authpsk"}
 
 func c07KEMName(k KEM) string {
 	return map[KEM]string{KEM_P256_HKDF_SHA256: "P256", KEM_P384_HKDF_SHA384: "P384", KEM_P521_HKDF_SHA512: "P521",
@@ -38,15 +51,15 @@ func c07KEMName(k KEM) string {
 }
 
 func c07IsDHKEM(k KEM) bool { return k != KEM_X25519_KYBER768_DRAFT00 && k != KEM_XWING }
-func c07IsAuth(m byte) bool { return m == modeAuth || m == modeAuthPSK }
-func c07IsPSK(m byte) bool  { return m == modePSK || m == modeAuthPSK }
+func c07IsAuth(m byte) bool { return m == c07MAuth || m == c07MAuthPSK }
+func c07IsPSK(m byte) bool  { return m == c07MPSK || m == c07MAuthPSK }
 
 func c07SuiteName(s Suite) string {
-	return fmt.Sprintf("%s/kdf%d/aead%d", c07KEMName(s.kemID), s.kdfID, s.aeadID)
+	return fmt.Sprintf("%s/kdf%d/aead%d", c07KEMName(c07K(s)), c07D(s), c07A(s))
 }
 
 func c07RefSuite(s Suite) rhpke.Suite {
-	return rhpke.Suite{KEM: uint16(s.kemID), KDF: uint16(s.kdfID), AEAD: uint16(s.aeadID)}
+	return rhpke.Suite{KEM: uint16(c07K(s)), KDF: uint16(c07D(s)), AEAD: uint16(c07A(s))}
 }
 
 func c07AllSuites() []Suite {
@@ -112,57 +125,67 @@ func c07Derive(k KEM, ikm []byte) (p *c07Party, err error) {
 // c07Fields are the values of one HPKE context that RFC 9180 defines.
 type c07Fields struct {
 	ss, ksc, secret, key, baseNonce, exp []byte
+	internals                            bool // ss, ksc, secret are present
 }
 
 func c07RefFields(c *rhpke.Context) c07Fields {
-	return c07Fields{c.SharedSecret, c.KeyScheduleContext, c.Secret, c.Key, c.BaseNonce, c.ExporterSecret}
+	return c07Fields{c.SharedSecret, c.KeyScheduleContext, c.Secret, c.Key, c.BaseNonce, c.ExporterSecret, true}
 }
 
-// c07LibFields reads the context's internals and cross-checks them with what the public
-// MarshalBinary exposes (exporter secret, key, base nonce, sequence number).
-func c07LibFields(c Context) (f c07Fields, seq []byte, err error) {
-	var e *encdecContext
-	switch x := c.(type) {
-	case *sealContext:
-		e = x.encdecContext
-	case *openContext:
-		e = x.encdecContext
-	default:
-		return f, nil, fmt.Errorf("unknown context type %T", c)
-	}
-	f = c07Fields{e.sharedSecret, e.keyScheduleContext, e.secret, e.key, e.baseNonce, e.exporterSecret}
-	raw, err := c.MarshalBinary()
-	if err != nil {
-		return f, nil, err
-	}
+// c07ParseContext splits the documented MarshalBinary format of a context
+// (role, kem_id, kdf_id, aead_id, exporter_secret<0..255>, key<0..255>, base_nonce<0..255>, seq<0..255>).
+func c07ParseContext(raw []byte) (fields [4][]byte, err error) {
 	if len(raw) < 7 {
-		return f, nil, errors.New("marshalled context too short")
+		return fields, errors.New("marshalled context too short")
 	}
 	p := raw[7:]
-	var fields [4][]byte
 	for i := 0; i < 4; i++ {
 		if len(p) < 1 || len(p) < 1+int(p[0]) {
-			return f, nil, errors.New("marshalled context: short field")
+			return fields, errors.New("marshalled context: short field")
 		}
 		fields[i] = p[1 : 1+int(p[0])]
 		p = p[1+int(p[0]):]
 	}
 	if len(p) != 0 {
-		return f, nil, errors.New("marshalled context: trailing bytes")
+		return fields, errors.New("marshalled context: trailing bytes")
 	}
-	if !bytes.Equal(fields[0], f.exp) || !bytes.Equal(fields[1], f.key) || !bytes.Equal(fields[2], f.baseNonce) {
-		return f, nil, errors.New("MarshalBinary disagrees with the context's own fields")
+	return fields, nil
+}
+
+// c07InternalsAvailable reports whether the optional in-package read-out is linked in.
+func c07InternalsAvailable() bool { return verifmc.C07Internals != nil }
+
+// c07LibFields reads what the exported API exposes of a context (MarshalBinary: exporter
+// secret, key, base nonce, sequence number) and, when the optional in-package read-out is
+// available, the intermediate values shared_secret, key_schedule_context and secret.
+func c07LibFields(c Context) (f c07Fields, seq []byte, err error) {
+	raw, err := c.MarshalBinary()
+	if err != nil {
+		return f, nil, err
+	}
+	fields, err := c07ParseContext(raw)
+	if err != nil {
+		return f, nil, err
+	}
+	f.exp, f.key, f.baseNonce = fields[0], fields[1], fields[2]
+	if verifmc.C07Internals != nil {
+		if ss, ksc, secret, ok := verifmc.C07Internals(c); ok {
+			f.ss, f.ksc, f.secret, f.internals = ss, ksc, secret, true
+		}
 	}
 	return f, fields[3], nil
 }
 
 // c07Diff names the first field where the library differs from the reference ("" = equal).
 func c07Diff(lib, ref c07Fields) (string, string) {
-	for _, x := range []struct {
+	for i, x := range []struct {
 		n    string
 		a, b []byte
 	}{{"shared_secret", lib.ss, ref.ss}, {"key_schedule_context", lib.ksc, ref.ksc}, {"secret", lib.secret, ref.secret},
 		{"key", lib.key, ref.key}, {"base_nonce", lib.baseNonce, ref.baseNonce}, {"exporter_secret", lib.exp, ref.exp}} {
+		if i < 3 && !(lib.internals && ref.internals) {
+			continue // intermediate value not observable through the exported API
+		}
 		if !bytes.Equal(x.a, x.b) {
 			return x.n, fmt.Sprintf("%s = %s, RFC 9180 gives %s", x.n, c07Hex(x.a), c07Hex(x.b))
 		}
@@ -196,11 +219,11 @@ func c07SetupS(p c07Params, pkR kem.PublicKey, skS kem.PrivateKey, ikmE []byte) 
 func c07CallS(snd *Sender, mode byte, psk, pskID []byte, skS kem.PrivateKey, ikmE []byte) ([]byte, Sealer, error) {
 	rnd := bytes.NewReader(ikmE)
 	switch mode {
-	case modeBase:
+	case c07MBase:
 		return snd.Setup(rnd)
-	case modePSK:
+	case c07MPSK:
 		return snd.SetupPSK(rnd, psk, pskID)
-	case modeAuth:
+	case c07MAuth:
 		return snd.SetupAuth(rnd, skS)
 	default:
 		return snd.SetupAuthPSK(rnd, skS, psk, pskID)
@@ -225,11 +248,11 @@ func c07SetupR(p c07Params, skR kem.PrivateKey, enc []byte, pkS kem.PublicKey) (
 func c07CallR(rcv *Receiver, mode byte, enc, psk, pskID []byte, pkS kem.PublicKey) (Opener, error) {
 	e := append([]byte{}, enc...)
 	switch mode {
-	case modeBase:
+	case c07MBase:
 		return rcv.Setup(e)
-	case modePSK:
+	case c07MPSK:
 		return rcv.SetupPSK(e, psk, pskID)
-	case modeAuth:
+	case c07MAuth:
 		return rcv.SetupAuth(e, pkS)
 	default:
 		return rcv.SetupAuthPSK(e, psk, pskID, pkS)
@@ -237,11 +260,11 @@ func c07CallR(rcv *Receiver, mode byte, enc, psk, pskID []byte, pkS kem.PublicKe
 }
 
 func c07EntryS(mode byte) string {
-	return map[byte]string{modeBase: "Sender.Setup", modePSK: "Sender.SetupPSK", modeAuth: "Sender.SetupAuth", modeAuthPSK: "Sender.SetupAuthPSK"}[mode]
+	return map[byte]string{c07MBase: "Sender.Setup", c07MPSK: "Sender.SetupPSK", c07MAuth: "Sender.SetupAuth", c07MAuthPSK: "Sender.SetupAuthPSK"}[mode]
 }
 
 func c07EntryR(mode byte) string {
-	return map[byte]string{modeBase: "Receiver.Setup", modePSK: "Receiver.SetupPSK", modeAuth: "Receiver.SetupAuth", modeAuthPSK: "Receiver.SetupAuthPSK"}[mode]
+	return map[byte]string{c07MBase: "Receiver.Setup", c07MPSK: "Receiver.SetupPSK", c07MAuth: "Receiver.SetupAuth", c07MAuthPSK: "Receiver.SetupAuthPSK"}[mode]
 }
 
 // ---------------------------------------------------------------- alphabets
@@ -487,4 +510,46 @@ func (c *c07Collector) flush(r *verifmc.Run) {
 		r.Violation(x.key, x.caseID, x.what, x.pay)
 	}
 	c.v = nil
+}
+
+// c07LibKEMSecrets runs the KEM below HPKE through the exported kem.Scheme / kem.AuthScheme
+// interface on serialized keys: (shared secret, enc) of the deterministic encapsulation with
+// seed ikmE, and the shared secret the receiver decapsulates from enc.
+func c07LibKEMSecrets(k KEM, mode byte, pkR, skS, ikmE, skR, pkS, enc []byte) (ssS, encS, ssR []byte, err error) {
+	if pan, what := verifmc.Try(func() {
+		sch := k.Scheme()
+		var pub, pubS kem.PublicKey
+		var priv, privS kem.PrivateKey
+		if pub, err = sch.UnmarshalBinaryPublicKey(pkR); err != nil {
+			return
+		}
+		if priv, err = sch.UnmarshalBinaryPrivateKey(skR); err != nil {
+			return
+		}
+		if !c07IsAuth(mode) {
+			if encS, ssS, err = sch.EncapsulateDeterministically(pub, ikmE); err != nil {
+				return
+			}
+			ssR, err = sch.Decapsulate(priv, enc)
+			return
+		}
+		as, ok := sch.(kem.AuthScheme)
+		if !ok {
+			err = errors.New("KEM is not a kem.AuthScheme")
+			return
+		}
+		if privS, err = sch.UnmarshalBinaryPrivateKey(skS); err != nil {
+			return
+		}
+		if pubS, err = sch.UnmarshalBinaryPublicKey(pkS); err != nil {
+			return
+		}
+		if encS, ssS, err = as.AuthEncapsulateDeterministically(pub, privS, ikmE); err != nil {
+			return
+		}
+		ssR, err = as.AuthDecapsulate(priv, enc, pubS)
+	}); pan {
+		return nil, nil, nil, errors.New("panic: " + what)
+	}
+	return
 }
